@@ -58,7 +58,8 @@ def judge(plan: dict, tr: P.Trace):
 
 
 def gen_plan(rng, i: int, tier: str) -> dict:
-    kind = rng.choice(("identical-offline", "identical-offline", "identical-online-seed", "identical-online-pub", "mixed", "mixed", "concurrent", "fork"))
+    kind = rng.choice(("identical-offline", "identical-offline", "identical-online-seed", "identical-online-pub", "mixed", "mixed", "concurrent", "fork",
+                       "alternating"))
     hash_name = rng.choice(offline.HASHES)
     secret = rng.choice(offline.SECRETS)
     rk = [i % 5, hash_name, secret]
@@ -72,6 +73,19 @@ def gen_plan(rng, i: int, tier: str) -> dict:
         fl = rng.choice(("sync", "async"))
         for _ in range(n):
             ops.append({"op": "protect", "fl": fl, "sid": offline.SID_A, "rk": 0, "net": "offline", "data": data, "same_data": True})
+    elif kind == "alternating":
+        # the key position changes back and forth within one process history: the clock steps between two intervals (and back),
+        # and two root keys are used alternately; arguments are otherwise identical
+        plan["root_keys"] = [rk, [(i + 1) % 5 + 5, hash_name, "DH"]]
+        ops.append({"op": "load_key", "rk": 0})
+        ops.append({"op": "load_key", "rk": 1})
+        t0 = plan["clock_ft"]
+        step = rng.choice((gkdi.B, 32 * gkdi.B, 1024 * gkdi.B))
+        fl = rng.choice(("sync", "async"))
+        for k in range(min(n, 10) + 2):
+            if rng.random() < 0.6:
+                ops.append({"op": "clock", "set_ft": t0 + (step if k % 2 else 0)})
+            ops.append({"op": "protect", "fl": fl, "sid": offline.SID_A, "rk": k % 2 if rng.random() < 0.5 else 0, "net": "offline", "data": data, "same_data": True})
     elif kind == "fork":
         # one process protects, forks, and parent and child both keep protecting with identical arguments
         ops.append({"op": "load_key", "rk": 0})
@@ -122,13 +136,14 @@ class C19(common.Check):
     rule = ("case = a history (plan) of 2..64 protect calls at a frozen simulated instant with a ledger entropy source: identical arguments "
             "offline (root key), identical online (seed reply / public-key reply for DH, P256, P384), mixed histories with interleaved "
             "unprotects and cache reuse, concurrent async groups sharing one cache (PRNG-scheduled), and histories in which the process forks "
-            "after a protect and parent and child both go on protecting (the child's entropy source is re-keyed, buffered state is shared). From each emitted blob the "
+            "after a protect and parent and child both go on protecting, and histories whose key position alternates (clock stepping between two "
+            "intervals and back, two root keys used in turn) (the child's entropy source is re-keyed, buffered state is shared). From each emitted blob the "
             "reference extracts GCM nonce and key_info and recovers the CEK; all must be pairwise distinct within the history. "
             "Non-trivial = history with >= 2 successful protects; distinct = distinct plan.")
     components = {"client": "real (public API, KeyCache, _encrypt_blob, cek_generate, new_kek)", "entropy": "simulated (os.urandom and AESGCM.generate_key seams, ledger)",
                   "clock": "simulated, frozen", "DC": "model (RefDC)", "security context": "stub (StubCtx)", "blob opener": "model (ref.cms/ref.gkdi)"}
     assumptions = ["the simulated entropy source never repeats a draw; real-world collision probability of fresh 96/256-bit values is outside the claim"]
-    required_fired = ("mode_pub", "mode_nonce", "provenance_ok", "forked_histories")
+    required_fired = ("mode_pub", "mode_nonce", "provenance_ok", "forked_histories", "alternating_positions")
 
     def cases(self, tier, seed):
         rng = prng.stream(seed, "C19")
@@ -170,6 +185,8 @@ class C19(common.Check):
         viol, probes = judge(case, tr)
         if tr.child_pid:
             probes["forked_histories"] = 1
+        if case.get("kind") == "alternating":
+            probes["alternating_positions"] = 1
         return {"viol": viol, "digest": tr.world.digest(), "key": common.key_hash(case) if probes.get("protects_ok", 0) >= 2 else None,
                 "sched_key": common.key_hash(tr.schedule) if tr.schedule else None,
                 "fired": {"entropy_draws": tr.world.entropy.counter, "concurrent_groups": int(case["kind"] == "concurrent"),
